@@ -78,3 +78,41 @@ package check
 //@   props C15
 //@   ensures[delegates-to-the-array-accessor] hits("getAllArrayType#0") == 1
 //@ end
+
+// ---- C08: incremental re-analysis after file events ----
+// The result of an event batch equals a fresh start only if every step a fresh start would do for the
+// affected files is scheduled. Each scheduling decision is a per-event obligation (loop step clauses,
+// prev(e) = value at the start of the iteration) and the pass selection after the loop is a decision table.
+
+// RemoveFile: the file leaves every per-file table of the first pass (the index removal is the C18 contract).
+//@ typeinv AllProject [C08,C18,C01]: self.fileIndexInfo != nil
+//@ func (*AllProject).RemoveFile
+//@   props C08
+//@   at call RemoveOneFile#0 before assert[index-removal-uses-the-file-path] streq(arg1, strFile) && arg0 == a.fileIndexInfo && !has(a.allFilesMap, strFile)
+//@   at call RemoveCacheContent#0 before assert[first-pass-result-dropped-before-cache] !has(a.fileStructMap, strFile) && streq(arg1, strFile)
+//@   ensures[removes-all-three] hits("RemoveOneFile#0") == 1 && hits("RemoveCacheContent#0") == 1
+//@ end
+
+//@ func (*AllProject).HandleFileEventChanges
+//@   props C08
+//@   loop range:fileEventVec step [created-or-changed-file-is-reparsed] (fileEvents.Type == FileEventCreated || fileEvents.Type == FileEventChanged)
+//@        ==> len(needAgainFileVec) == prev(len(needAgainFileVec)) + 1 && streq(needAgainFileVec[len(needAgainFileVec) - 1], strFile)
+//@   loop range:fileEventVec step [created-file-enters-file-table-and-index] fileEvents.Type == FileEventCreated
+//@        ==> hits("InsertOneFile#0") == prev(hits("InsertOneFile#0")) + 1
+//@   loop range:fileEventVec step [deleted-file-leaves-all-tables] fileEvents.Type == FileEventDeleted
+//@        ==> hits("RemoveFile#0") == prev(hits("RemoveFile#0")) + 1
+//@   loop range:fileEventVec step [deleted-file-is-recorded] fileEvents.Type == FileEventDeleted ==> has(deleteFileMap, strFile)
+//@   loop range:fileEventVec step [file-of-the-workspace-pass-schedules-it] (a.thirdStruct != nil && has(a.thirdStruct.AllIncludeFile, strFile)) ==> thirdFlag
+//@   loop range:fileEventVec step [scheduling-flags-are-never-cleared] (prev(thirdFlag) ==> thirdFlag) && (prev(handleAllFlag) ==> handleAllFlag)
+//@   loop range:fileEventVec step [every-event-file-gets-its-enum-check] has(enumFileMap, strFile)
+//@   at call InsertOneFile#0 before assert[index-insertion-uses-the-file-path] streq(arg1, strFile) && arg0 == a.fileIndexInfo && has(a.allFilesMap, strFile)
+//@   at call RemoveFile#0 before assert[removal-uses-the-file-path] streq(arg1, strFile)
+//@   at call HandleAllThirdFile#0 before assert[workspace-pass-only-when-scheduled] thirdFlag
+//@   at call HandleNotCheckThirdFile#0 before assert[workspace-pass-only-when-scheduled] thirdFlag
+//@   at call firstCreateAndTraverseAst#0 before assert[reparse-gets-the-whole-queue] arg1 == needAgainFileVec
+//@   at call handleProjectEntryFileVec#0 before assert[file-set-change-reruns-every-project] handleAllFlag && arg1 == a.entryFilesList
+//@   ensures[scheduled-workspace-pass-runs-when-anything-changed] (changeFlag || handleAllFlag) && thirdFlag
+//@        ==> hits("HandleAllThirdFile#0") + hits("HandleNotCheckThirdFile#0") == 1
+//@   ensures[reference-resolution-change-republishes] len(needReferFileMap) > 0 ==> changeDiagnostic
+//@   ensures[any-analysis-change-republishes] (changeFlag || handleAllFlag) ==> changeDiagnostic
+//@ end
